@@ -38,6 +38,9 @@ var c03Items = []string{"f5000", "f0", "dir", "symlink", "f1", "f1023", "f1024",
 
 // c03FracItems: entries whose times are not whole seconds (explicit entry mtimes; a tree whose directories and
 // files have fractional on-disk mtimes): the times a package states about its entries must be the entries' times.
+// c03ModeItems: entries whose modes carry the special bits.
+var c03ModeItems = []string{"dir-sticky", "dir-setgid", "file-setuid", "file-sticky", "tree-mode"}
+
 var c03FracItems = []string{"frac-file", "frac-dir", "frac-link", "frac-tree", "frac-config"}
 
 var c03Names = map[string]string{"plain": "data.bin", "space": "with space.bin", "percent": "100%s_done%d.bin", "hash": "#hash.bin", "backslash": `back\slash.bin`, "unicode": "ünï.bin"}
@@ -77,6 +80,16 @@ func c03Entry(item string, i int, nameClass string) model.Entry {
 		return model.Entry{Src: "etc/app.conf", Dst: base + name, Type: "config"}
 	case "ghost":
 		return model.Entry{Dst: base + name, Type: "ghost"}
+	case "dir-sticky":
+		return model.Entry{Dst: base + name, Type: "dir", Mode: 0o1777}
+	case "dir-setgid":
+		return model.Entry{Dst: base + name, Type: "dir", Mode: 0o2775, Owner: "app", Group: "grp"}
+	case "file-setuid":
+		return model.Entry{Src: "bin/app", Dst: base + name, Mode: 0o4755}
+	case "file-sticky":
+		return model.Entry{Src: "etc/app.conf", Dst: base + name, Type: "config", Mode: 0o1644}
+	case "tree-mode":
+		return model.Entry{Src: "tree", Dst: base + name, Type: "tree", Mode: 0o2750}
 	case "sizes-tree":
 		return model.Entry{Src: "sizes", Dst: base + name, Type: "tree"}
 	case "frac-file":
@@ -146,6 +159,19 @@ func init() {
 						if !yield(C03Case{Shape: []string{a, b}, Setting: s}) {
 							return
 						}
+					}
+				}
+			}
+			// modes with setuid / setgid / sticky bits (what the package says about an entry must be what it ships)
+			for i, a := range c03ModeItems {
+				for _, s := range sets {
+					if !yield(C03Case{Shape: []string{a}, Setting: s}) {
+						return
+					}
+				}
+				for _, b := range c03ModeItems[i+1:] {
+					if !yield(C03Case{Shape: []string{a, b}, Setting: Setting{Name: "default"}}) {
+						return
 					}
 				}
 			}
